@@ -11,6 +11,7 @@ import (
 
 	"servitor/client"
 	"servitor/object"
+	"servitor/pub"
 )
 
 // decode a jv-encoded value (same encoding as dumpJSON) from the token stream
@@ -188,6 +189,37 @@ func init() {
 					out = dumpJSON(out, map[string]any(obj))
 					out = putText(out, src.String())
 				}
+			case 2, 3:
+				// the listing of an actor (2) or of a post (3): one verdict per delivered entry, in order
+				ui := r.next()
+				k := r.next()
+				built := pub.New(universe[ui], nil)
+				ms := int(time.Since(t0) / time.Millisecond)
+				var kids pub.Container
+				okKind := false
+				switch x := built.(type) {
+				case *pub.Actor:
+					okKind = kind == 2
+					kids = x.Children()
+				case *pub.Post:
+					okKind = kind == 3
+					kids = x.Children()
+				}
+				if !okKind || kids == nil {
+					out = append(out, 1, ms)
+					continue
+				}
+				items, _, _ := kids.Harvest(uint(k), 0)
+				out = append(out, 0, ms, 4, len(items))
+				for _, it := range items {
+					switch it.(type) {
+					case *pub.Failure:
+						out = append(out, 1, 0)
+					default:
+						out = append(out, 1, 1)
+					}
+				}
+				out = append(out, 0) // no id
 			case 1:
 				input := r.jv()
 				si := r.next()
